@@ -231,17 +231,19 @@ theorem failing_rule_was_started (sort : List Rule → List Rule) (rules : List 
 
 /-! ## facts re-extracted from engine/*.go on every run (lean/Ecal/Gen/C10.lean) -/
 
-/-- the shape of `Proc.step` (only `setFlag` writes the flag) is what the source says: every
-    assignment to `failOnFirstError` in package engine stores a parameter of the enclosing function
-    (a setter) — no function resets it to a constant, nobody takes its address. (`other` = a
+/-- ties the hand-written `Proc.step` (only `setFlag` writes the flag — `flag_survives_lifecycle` is
+    true by that shape) to the source: no assignment in package engine stores a *constant* into
+    `failOnFirstError`, nobody takes its address. It does not exclude struct copies or the
+    positional literal in `NewProcessor`. (`other` = a
     right-hand side the extractor does not classify; the life-cycle cases decide then.) -/
 theorem gen_flag_written_only_by_setters :
     Gen.C10.flagWriters.all (fun w => w.2 != "const") = true ∧ Gen.C10.flagAddressTaken = false := by
   decide
 
-/-- the sequential bookkeeping model speaks for concurrent cascades because every function that
-    touches `incomplete` / `priorities` does so inside one `rm.lock` section (or is only called
-    from such a section, or is the constructor) -/
+/-- no function of package engine uses `incomplete` / `priorities` after an `Unlock` of a
+    `RootMonitor` mutex (textual lock sections; `unknown` where the extractor cannot tell). This —
+    with the race run of the correspondence — is what lets the *sequential* bookkeeping theorem
+    speak for cascades on several workers; it is not an interleaving proof. -/
 theorem gen_bookkeeping_under_lock :
     Gen.C10.bookAccess.all (fun a => a.2 != "unlocked") = true := by decide
 
@@ -447,8 +449,10 @@ theorem reachableTQ_get {t : TQ} (h : ReachableTQ t) : ∀ root, Reachable (t.ge
       · subst hr; rw [tq_get_set_same]; exact .pop (ih r) hq
       · rw [tq_get_set_other _ _ _ _ hr]; exact ih r
 
-/-- **Several workers taking events of one cascade.** In every `TaskQueue` state reachable by any
-    interleaving of atomic pushes and pops, a pop that serves root `root` returns the least
+/-- **Several workers taking events of one cascade.** (`ReachableTQ` has no notion of a worker: it
+    is *every* sequence of atomic calls, which is what any number of workers produces under the
+    queue lock; the statement is `no_overtaking` per root plus a frame condition.) In every
+    `TaskQueue` state reachable by any interleaving of atomic pushes and pops, a pop that serves root `root` returns the least
     (priority, insertion number) queued for that root at that moment — nothing queued for the root
     precedes it, everything left for the root comes strictly after it — and leaves the queues of
     all other roots untouched. -/
